@@ -141,6 +141,24 @@ func catalog(p ScenParams) *WSpec {
 		pp.FromStr = map[string][]string{"a": vals}
 		w.Procs = []ProcSpec{src, pp, simpleProc("q", kind)}
 		w.Edges = []Edge{fe("src", "out", "p", "in"), fe("p", "out", "q", "in")}
+	case "g8d": // two parameters (fed by FromStr) and the DEFAULT output name (no SetOut): in.p.a_<v>.b_<v>.out
+		pp := ProcSpec{Name: "p", Kind: kind, Ins: []string{"in"}, Params: []string{"b", "a"}, Outs: []OutSpec{{Name: "out", Pattern: "default:out"}}}
+		va, vb := []string{}, []string{}
+		for i := 0; i < p.Items; i++ {
+			va = append(va, fmt.Sprintf("x%d", i))
+			vb = append(vb, fmt.Sprintf("y%d", i))
+		}
+		pp.FromStr = map[string][]string{"a": va, "b": vb}
+		w.Procs = []ProcSpec{src, pp, simpleProc("q", kind)}
+		w.Edges = []Edge{fe("src", "out", "p", "in"), fe("p", "out", "q", "in")}
+	case "g8e": // ONE parameter port fed by a ParamSource process AND by literal values (FromStr): fan-in of parameter streams
+		pp := ProcSpec{Name: "p", Kind: kind, Ins: []string{"in"}, Params: []string{"a"}, Outs: []OutSpec{{Name: "out", Pattern: "{i:in}.{p:a}.p"}}}
+		pp.FromStr = map[string][]string{"a": {"v0"}}
+		pp.FromStrLate = true
+		ps := ProcSpec{Name: "ps", Kind: "psrc", Items: []string{"w0"}}
+		src.Items = srcItems("in", 2)
+		w.Procs = []ProcSpec{src, ps, pp, simpleProc("q", kind)}
+		w.Edges = []Edge{fe("src", "out", "p", "in"), {From: "ps", FromPort: "out", To: "p", ToPort: "a", Param: true}, fe("p", "out", "q", "in")}
 	case "g8b": // parameter port fed by a ParamSource process
 		pp := ProcSpec{Name: "p", Kind: kind, Ins: []string{"in"}, Params: []string{"a"}, Outs: []OutSpec{{Name: "out", Pattern: "{i:in}.{p:a}.p"}}}
 		vals := []string{}
@@ -241,6 +259,10 @@ func catalog(p ScenParams) *WSpec {
 			ps.Kind = "cmd"
 			ps.DirOut = true
 		}
+	case "prepend": // Process.Prepend: a launcher in front of every command of p
+		if ps := w.proc("p"); ps != nil {
+			ps.Prepend = "env"
+		}
 	case "emptyparam-setout": // an empty string is a legal parameter value when it is only used in the path pattern
 		if ps := w.proc("p"); ps != nil {
 			ps.Kind = "func"
@@ -258,6 +280,18 @@ func catalog(p ScenParams) *WSpec {
 	case "missingtag": // ... tag placeholder without a tag
 		if ps := w.proc("p"); ps != nil {
 			ps.CmdSuffix = " -- x={t:nosuchtag}"
+		}
+	case "missingtag-setout": // ... a tag the incoming IP does not carry, named in the output-path pattern
+		if ps := w.proc("p"); ps != nil {
+			for i := range ps.Outs {
+				ps.Outs[i].Pattern = "{i:in}.{t:nosuchtag}." + ps.Outs[i].Name
+			}
+		}
+	case "missingparam-setout": // ... a parameter the process does not have, named in the output-path pattern
+		if ps := w.proc("p"); ps != nil {
+			for i := range ps.Outs {
+				ps.Outs[i].Pattern = "{i:in}.{p:nosuchparam}." + ps.Outs[i].Name
+			}
 		}
 	case "barrier":
 		for i := range w.Procs {
